@@ -23,9 +23,7 @@ ID = "C08"
 PROPS = "Props/C08.v"
 EXTRACT = "extract/ExC08.v"
 OBLIGATION = "swhid-roundtrip"
-THEOREMS = ["C08_core_roundtrip", "C08_ext_roundtrip", "C08_qualified_roundtrip",
-            "C08_qualified_roundtrip_nospace", "C08_grammar", "C08_grammar_shape", "C08_conversions",
-            "C08_huge_line_refuted", "C08_tables", "C08_satisfiable"]
+THEOREMS = ["C08_core_roundtrip", "C08_ext_roundtrip", "C08_qualified_roundtrip", "C08_grammar", "C08_grammar_shape", "C08_conversions", "C08_huge_line_refuted", "C08_tables", "C08_satisfiable"]
 RULE = ("all 5/7 object types x random 20-byte ids x all 32 qualifier subsets x adversarial origins "
         "(';' '%' '%3B' '%25' '=' '%zz', non-ASCII, astral, lone surrogates, empty, random over a hostile alphabet) x "
         "paths (every single byte value, random bytes, empty, '/'-heavy) x line numbers/ranges (0, equal, reversed, "
